@@ -23,4 +23,31 @@ theorem C10_renew_requires_actor_and_signature (e : Env) (s s' : State) (c p : A
   all_goals (try simp only [reduceCtorEq] at h)
   all_goals (refine ⟨by simp_all, by simp_all, by omega, by omega, by simp_all⟩)
 
+/-- what "acting for a provider" means, for every state: the sender is that provider, or the provider is a registered node
+    that lists the sender among its transaction addresses — a node that registered no address can be named by nobody else,
+    and an unregistered provider by nobody but itself (the seeded change C10-10 let anybody name a node without addresses) -/
+theorem C10_acts_for_iff (s : State) (c p : Addr) :
+    actsFor s c p = true ↔ (p = c ∨ ∃ n, s.getNode p = some n ∧ c ∈ n.txAddresses) := by
+  unfold actsFor
+  constructor
+  · intro h
+    rcases Bool.or_eq_true_iff.mp h with h | h
+    · exact Or.inl (by simpa using h)
+    · cases hn : s.getNode p with
+      | none => rw [hn] at h; cases h
+      | some n =>
+        rw [hn] at h
+        exact Or.inr ⟨n, rfl, by simpa using h⟩
+  · rintro (h | ⟨n, hn, hc⟩)
+    · simp [h]
+    · rw [hn]; simp [hc]
+
+theorem C10_nobody_else_names_a_node_without_addresses (s : State) (c p : Addr) (n : Node) (hn : s.getNode p = some n)
+    (hempty : n.txAddresses = []) (hne : p ≠ c) : actsFor s c p = false := by
+  apply Bool.eq_false_iff.mpr
+  intro h
+  rcases (C10_acts_for_iff s c p).mp h with h | ⟨m, hm, hc⟩
+  · exact hne h
+  · rw [hn] at hm; cases hm; rw [hempty] at hc; cases hc
+
 end SaoVerif
